@@ -27,7 +27,10 @@ def answer (line : String) : String :=
   match (line.trimAscii.toString.splitOn " ").filter (· ≠ "") with
   | "merge" :: rest =>
     match parseAll parseExtent rest with
-    | some es => "ok " ++ " ".intercalate ((mergeExtents es).map showExtent)
+    | some es =>
+      match mergeGoChk none es with
+      | some r => "ok " ++ " ".intercalate (r.map showExtent)
+      | none => "panic"
     | none => "bad-op"
   | ["blocks", s, l, b] =>
     match s.toNat?, l.toNat?, b.toNat? with
